@@ -12,8 +12,7 @@ def sh(cmd, cwd):
 os.makedirs(os.path.join(VERIF, "work"), exist_ok=True)
 os.makedirs(os.path.join(VERIF, "evidence"), exist_ok=True)
 h = os.path.join(VERIF, "harness")
-if not os.path.exists(os.path.join(h, "Cargo.lock")):
-    shutil.copy("/repo/Cargo.lock", os.path.join(h, "Cargo.lock"))
+shutil.copy("/repo/Cargo.lock", os.path.join(h, "Cargo.lock"))
 sh(["cargo", "build", "--offline"], h)
 gen = os.path.join(VERIF, "lean", "AstGrepVerif", "Generated", "Tables.lean")
 out = subprocess.run([os.path.join(h, "target", "debug", "agv-harness"), "tables"], capture_output=True, text=True, env=env)
